@@ -114,6 +114,36 @@ def parse_alternatives(p):
     return alts
 
 
+def _newline_chain(f, operand):
+    """operand == input.replace("\\r\\n", "\\n").replace('\\n', &line_ending_character(..)) (through into/deref)"""
+    def consts(o):
+        return [r[1] for r in provenance(f, o, through=None) if r[0] == "const"]
+
+    def replace_call(o):
+        for r in provenance(f, o):
+            if r[0] == "call" and re.search(r"::replace$", r[1]):
+                return f.blocks[r[2]]["term"]
+            if r[0] == "call":
+                return None
+        return None
+    outer = replace_call(operand)
+    if outer is None:
+        return False
+    if consts(outer["args"][1]) not in (["v:\n"], ["s:\n"]):
+        return False
+    rp = provenance(f, outer["args"][2])
+    if "context::line_ending_character" not in prov_calls(rp) or [r for r in rp if r[0] == "const"]:
+        return False
+    inner = replace_call(outer["args"][0])
+    if inner is None:
+        return False
+    if consts(inner["args"][1]) != ["s:\r\n"] or consts(inner["args"][2]) != ["s:\n"]:
+        return False
+    # the innermost receiver is the token's own literal
+    ap = access_path(f, inner["args"][0])
+    return ap[1][-2:] == (("v", "StringLiteral"), ("f", "literal")) or ap[1][-1:] == (("f", "literal"),)
+
+
 def rule_regex(ctx, prop):
     rep = Report(prop, "R-REGEX", "escape rewriting: regex shapes, escape alphabet, replacement table; bracket strings "
                                   "and numbers are otherwise untouched")
@@ -329,9 +359,8 @@ def rule_regex(ctx, prop):
                     if brackets:
                         okq = (is_const(q) and q.get("variant") == "Brackets") or \
                               any(r == ("agg", "full_moon::tokenizer::StringLiteralQuoteType::Brackets", rr) for r in provenance(ft, q, through=None) for rr in [r[2] if len(r) > 2 else None])
-                        # literal: only replace() calls
-                        calls = prov_calls(provenance(ft, ops["literal"]))
-                        okl = all(re.search(r"::replace$", c) for c in calls) and calls
+                        # literal: normalise CRLF -> LF first, then LF -> configured line ending, nothing else
+                        okl = _newline_chain(ft, ops["literal"])
                     else:
                         okq = "formatters::general::get_quote_to_use" in prov_calls(provenance(ft, q, through=None))
                         calls = prov_calls(provenance(ft, ops["literal"]))
